@@ -522,8 +522,24 @@ def gen_c01(tape, tier):
     nhosts = tape.choice((1, 1, 2), 'site.nhosts')
     npages = tape.between(2, 10 if tier == 'thorough' else 8, 'site.npages')
     # (--no-parent from the top directory: the option must then change nothing)
+    # (with a depth limit and -p, framed documents are frequent: a frame is an embedded object AND a page whose links have a depth)
+    framed = opts.get('level') not in ('inf', None) and opts.get('page_requisites')
     site, starts, pages, assets, redirects = refsite.gen_site(tape, nhosts=nhosts, npages=npages,
-                                                             start_in_subdir=opts['no_parent'] and not tape.chance(1, 4, 'np.at_root'))
+                                                             start_in_subdir=opts['no_parent'] and not tape.chance(1, 4, 'np.at_root'),
+                                                             iframe_chance=(1, 3) if framed else (1, 8))
+    if framed and not opts['no_parent'] and tape.chance(1, 3, 'site.frame_diamond'):
+        # a page (t) reachable through a framed document of one page and, one step nearer, through a sibling of that page; behind
+        # it a chain, so that for every depth limit something lies exactly at the limit on the shorter path
+        o = starts[0].origin
+        gp, gq, gf, gt, g1, g2 = (site.add(o, '/g/%s.html' % n, 'page') for n in ('p', 'q', 'f', 't', 'c1', 'c2'))
+        gp.inlines.append((gf, gf.url, 'iframe'))
+        gf.links.append((gt, gt.url))
+        gq.links.append((gt, gt.url))
+        gt.links.append((g1, g1.url))
+        g1.links.append((g2, g2.url))
+        starts[0].links.append((gp, gp.url))
+        starts[0].links.append((gq, gq.url))
+        pages += [gp, gq, gf, gt, g1, g2]
     if tape.chance(1, 5, 'multi_start') and len(pages) > 2 and not opts['no_parent']:
         extra = pages[1 + tape.draw(len(pages) - 1, 'start.extra')]
         if extra.origin.key() == starts[0].origin.key() and extra not in starts:
@@ -604,7 +620,9 @@ def judge_c01(r, site, starts, opts, out, rows, concurrency):
                  if canon(x['url']) in ref_rows and x['level'] != ref_rows[canon(x['url'])]['level']]
     if deviating:
         r.probes['depth_race_possible'] += 1
-    race = bool(deviating) and opts.get('level') not in ('inf',)
+    # (C01-K2 is about the order in which concurrent answers arrive: with one worker the table fills breadth first and a recorded
+    # depth that differs from the shortest distance is no race)
+    race = bool(deviating) and opts.get('level') not in ('inf',) and concurrency > 1
     rowmap = {canon(x['url']): x for x in rows}
     dual = ({d.url for res in site.order for d, _ in res.links if not isinstance(d, str)} &
             {d.url for res in site.order for d, _, _ in res.inlines})
@@ -1012,6 +1030,10 @@ def run(tape, prop, tier):
             site, starts, opts, flaky = gen_c02(tape, tier)
         # (more workers than connections per host - 6 - make workers wait for one another's connections)
         concurrency = tape.choice((1, 2, 3, 4, 8, 12), 'concurrency')
+        if prop == 'C01' and opts.get('level') not in ('inf', None) and opts.get('page_requisites') and tape.chance(1, 2, 'concurrency.one'):
+            # depth limit and embedded documents with one worker: here the recorded depth of every URL is its shortest distance
+            # (no answer-order race, known finding C01-K2), so a URL cut off by the limit is a verdict
+            concurrency = 1
         dbpath = os.path.join(sandbox, 'db.sqlite')
         argv = argv_for(opts, [s.url for s in starts], dbpath)
         no_keepalive = tape.chance(1, 4, 'srv.no_keepalive')       # a server that closes after every response
